@@ -76,87 +76,137 @@ Qed.
 Definition wm_appending (r : wm_raw) : Prop :=
   wm_offset r = wm_fpos r /\ wm_fend r = wm_fpos r /\ wm_fault r = false.
 
-Ltac wm_proj :=
-  unfold wm_bk_fwrite, wm_disk_put, wm_set_hdr, wm_set_offset, wm_invalidate, wm_set_last_pl, wm_set_fpos, wm_bk_fseek, wm_hdr_set_tag;
-  cbn [wm_fend wm_fpos wm_offset wm_last_pl wm_hdr wm_fault wm_rlog wm_disk fst snd fm_tag wm_hdr_set_ppl fm_payload_length].
+Definition wm_mk_raw (fpos fend off : N) (hdr : fm_chunk_header) (lpl : N) (disk : list (N * fm_chunk_header)) (log : wm_log) (flt : bool) : wm_raw :=
+  {| wm_fpos := fpos; wm_fend := fend; wm_offset := off; wm_hdr := hdr; wm_last_pl := lpl; wm_disk := disk; wm_rlog := log; wm_fault := flt |}.
 
-Lemma wm_raw_wr_append_empty : forall r h,
-  wm_appending r -> fm_payload_length h = 0 -> fm_tag h <> JLS_TAG_INVALID ->
-  let h1 := wm_hdr_set_ppl h (wm_last_pl r) in
-  let r' := fst (wm_raw_wr r h []) in
-  snd (wm_raw_wr r h []) = h1 /\
-  wm_rlog r' = WmWrite (wm_fpos r) (fm_encode_chunk h1 []) :: wm_rlog r /\
-  wm_fpos r' = wm_fpos r + fm_chunk_size 0 /\ wm_appending r' /\ wm_last_pl r' = 0.
+Lemma wm_appending_inv : forall r, wm_appending r ->
+  r = wm_mk_raw (wm_fpos r) (wm_fpos r) (wm_fpos r) (wm_hdr r) (wm_last_pl r) (wm_disk r) (wm_rlog r) false.
 Proof.
-  intros r h [Ho [He Hf]] Hpl Htag h1 r'.
-  destruct r as [fpos fend off hdr lpl disk log flt].
-  cbn [wm_offset wm_fpos wm_fend wm_fault] in Ho, He, Hf. subst off fend flt.
-  subst h1 r'. unfold wm_raw_wr, wm_raw_wr_header.
-  cbn [wm_fend wm_fpos wm_offset wm_last_pl].
-  rewrite N.leb_refl, N.eqb_refl.
-  assert (Hl : N.of_nat (length (fm_encode_chunk_header (wm_hdr_set_ppl h lpl))) = 32).
-  { rewrite fm_encode_chunk_header_length. reflexivity. }
-  unfold wm_raw_wr_payload, wm_raw_rd_header, wm_hdr_valid.
-  wm_proj. rewrite Hl.
-  destruct (fm_tag h =? JLS_TAG_INVALID) eqn:Et; [apply N.eqb_eq in Et; congruence|].
-  cbn [negb]. rewrite Hpl. cbn [N.eqb].
-  rewrite N.max_r by lia. rewrite N.leb_refl.
-  wm_proj. unfold wm_appending. wm_proj.
-  unfold fm_encode_chunk. cbn [fm_frame]. rewrite app_nil_r.
-  unfold fm_chunk_size, fm_disk_len, SIZEOF_chunk_header. cbn [N.eqb].
-  repeat split; try reflexivity. lia.
+  intros r [Ho [He Hf]]. destruct r as [fpos fend off hdr lpl disk log flt].
+  cbv [wm_offset wm_fpos wm_fend wm_fault] in Ho, He, Hf. subst off fend flt. reflexivity.
 Qed.
+
+(* step 1: the header write of an append *)
+Lemma wm_raw_wr_header_append : forall fpos hdr lpl disk log h,
+  wm_raw_wr_header (wm_mk_raw fpos fpos fpos hdr lpl disk log false) h =
+  (let h1 := wm_hdr_set_ppl h lpl in
+   let hb := fm_encode_chunk_header h1 in
+   (wm_mk_raw (fpos + N.of_nat (length hb)) (N.max fpos (fpos + N.of_nat (length hb))) fpos h1 lpl ((fpos, h1) :: disk)
+              (WmWrite fpos hb :: log) false, h1)).
+Proof.
+  intros. unfold wm_raw_wr_header, wm_mk_raw.
+  cbv [wm_fend wm_fpos wm_offset wm_last_pl].
+  rewrite N.leb_refl, N.eqb_refl. reflexivity.
+Qed.
+
+(* step 2: the payload + footer writes when a valid header with the same payload length is cached *)
+Lemma wm_raw_wr_payload_append : forall fpos h1 lpl disk log p,
+  (fm_tag h1 =? JLS_TAG_INVALID) = false -> fm_payload_length h1 = N.of_nat (length p) -> N.of_nat (length p) <> 0 ->
+  wm_raw_wr_payload (wm_mk_raw fpos fpos (fpos - 32) h1 lpl disk log false) (N.of_nat (length p)) p =
+  (let ft := wm_footer (N.of_nat (length p)) (crc32c p) in
+   let e1 := fpos + N.of_nat (length p) in
+   let e2 := e1 + N.of_nat (length ft) in
+   wm_mk_raw e2 (N.max (N.max fpos e1) e2) (fpos - 32) h1
+             (if N.max (N.max fpos e1) e2 <=? e2 then N.of_nat (length p) else lpl) disk
+             (WmWrite e1 ft :: WmWrite fpos p :: log) false).
+Proof.
+  intros fpos h1 lpl disk log p Htag Hpl Hne.
+  unfold wm_raw_wr_payload, wm_raw_rd_header, wm_hdr_valid, wm_mk_raw.
+  cbv [wm_hdr wm_fault]. rewrite Htag. cbv [negb wm_fault].
+  destruct (N.of_nat (length p) =? 0) eqn:E0; [apply N.eqb_eq in E0; congruence|].
+  cbv [wm_hdr]. rewrite Hpl, N.ltb_irrefl, Nat2N.id, firstn_all.
+  unfold wm_bk_fwrite. cbv [wm_fpos wm_fend wm_offset wm_hdr wm_last_pl wm_disk wm_rlog wm_fault].
+  match goal with |- (if ?c then _ else _) = _ => destruct c end; reflexivity.
+Qed.
+
+Lemma wm_footer_length : forall n c, N.of_nat (length (wm_footer n c)) = fm_pad_len n + 4.
+Proof.
+  intros n c. unfold wm_footer. rewrite app_length, repeat_length, Nat2N.inj_add, N2Nat.id.
+  unfold fm_enc_u32. rewrite fm_enc_length. reflexivity.
+Qed.
+Lemma wm_hdr_bytes_length : forall h, N.of_nat (length (fm_encode_chunk_header h)) = 32.
+Proof. intro h. rewrite fm_encode_chunk_header_length. reflexivity. Qed.
 
 Lemma wm_raw_wr_append_nonempty : forall r h p,
   wm_appending r -> fm_payload_length h = N.of_nat (length p) -> p <> [] -> fm_tag h <> JLS_TAG_INVALID ->
   let h1 := wm_hdr_set_ppl h (wm_last_pl r) in
-  let r' := fst (wm_raw_wr r h p) in
   let hb := fm_encode_chunk_header h1 in
   let ft := wm_footer (N.of_nat (length p)) (crc32c p) in
-  snd (wm_raw_wr r h p) = h1 /\
-  wm_rlog r' = WmWrite (wm_fpos r + 32 + N.of_nat (length p)) ft :: WmWrite (wm_fpos r + 32) p :: WmWrite (wm_fpos r) hb :: wm_rlog r /\
-  hb ++ p ++ ft = fm_encode_chunk h1 p /\
-  wm_fpos r' = wm_fpos r + fm_chunk_size (N.of_nat (length p)) /\ wm_appending r' /\ wm_last_pl r' = N.of_nat (length p).
+  wm_raw_wr r h p =
+  (wm_mk_raw (wm_fpos r + fm_chunk_size (N.of_nat (length p))) (wm_fpos r + fm_chunk_size (N.of_nat (length p)))
+             (wm_fpos r + fm_chunk_size (N.of_nat (length p))) (wm_hdr_set_tag h1 JLS_TAG_INVALID) (N.of_nat (length p))
+             ((wm_fpos r, h1) :: wm_disk r)
+             (WmWrite (wm_fpos r + 32 + N.of_nat (length p)) ft :: WmWrite (wm_fpos r + 32) p :: WmWrite (wm_fpos r) hb :: wm_rlog r)
+             false, h1)
+  /\ hb ++ p ++ ft = fm_encode_chunk h1 p.
 Proof.
-  intros r h p [Ho [He Hf]] Hpl Hne Htag h1 r' hb ft.
+  intros r h p Ha Hpl Hne Htag h1 hb ft.
   assert (Hlen0 : N.of_nat (length p) <> 0) by (destruct p; [congruence | cbn [length]; lia]).
-  destruct r as [fpos fend off hdr lpl disk log flt].
-  cbn [wm_offset wm_fpos wm_fend wm_fault] in Ho, He, Hf. subst off fend flt.
-  subst h1 r' hb ft. unfold wm_raw_wr, wm_raw_wr_header.
-  cbn [wm_fend wm_fpos wm_offset wm_last_pl].
-  rewrite N.leb_refl, N.eqb_refl.
-  set (h1 := wm_hdr_set_ppl h lpl).
-  assert (Hl : N.of_nat (length (fm_encode_chunk_header h1)) = 32).
-  { rewrite fm_encode_chunk_header_length. reflexivity. }
-  assert (Hft : N.of_nat (length (wm_footer (N.of_nat (length p)) (crc32c p))) = fm_pad_len (N.of_nat (length p)) + 4).
-  { unfold wm_footer. rewrite app_length, repeat_length, Nat2N.inj_add, N2Nat.id. unfold fm_enc_u32. rewrite fm_enc_length. reflexivity. }
-  assert (Hpl1 : fm_payload_length h1 = N.of_nat (length p)) by (subst h1; cbn [fm_payload_length wm_hdr_set_ppl]; exact Hpl).
-  assert (Htag1 : (fm_tag h1 =? JLS_TAG_INVALID) = false) by (subst h1; cbn [fm_tag wm_hdr_set_ppl]; apply N.eqb_neq; exact Htag).
-  unfold wm_raw_wr_payload, wm_raw_rd_header, wm_hdr_valid.
-  wm_proj. rewrite Hl, Htag1. cbn [negb]. rewrite Hpl1.
-  destruct (N.of_nat (length p) =? 0) eqn:E0; [apply N.eqb_eq in E0; congruence|].
-  rewrite N.ltb_irrefl. rewrite Nat2N.id, firstn_all.
-  wm_proj. rewrite Hft.
-  rewrite !N.max_r by lia. rewrite N.leb_refl.
-  wm_proj. unfold wm_appending. wm_proj.
-  assert (Hsz : fm_chunk_size (N.of_nat (length p)) = 32 + N.of_nat (length p) + (fm_pad_len (N.of_nat (length p)) + 4)).
-  { unfold fm_chunk_size, fm_disk_len. rewrite E0. unfold SIZEOF_chunk_header, RAW_CRC_SIZE. lia. }
-  rewrite Hsz.
-  repeat split; try reflexivity; try lia.
-  unfold fm_encode_chunk, fm_frame, wm_footer. destruct p; [congruence|]. reflexivity.
+  assert (Hpl1 : fm_payload_length h1 = N.of_nat (length p)) by (subst h1; cbv [fm_payload_length wm_hdr_set_ppl]; exact Hpl).
+  assert (Htag1 : (fm_tag h1 =? JLS_TAG_INVALID) = false) by (subst h1; cbv [fm_tag wm_hdr_set_ppl]; apply N.eqb_neq; exact Htag).
+  split.
+  - rewrite (wm_appending_inv r Ha) at 1. unfold wm_raw_wr.
+    rewrite wm_raw_wr_header_append. cbv beta iota zeta. fold h1. fold hb.
+    rewrite Hpl1.
+    replace (wm_fpos r + N.of_nat (length hb)) with (wm_fpos r + 32) by (subst hb; rewrite wm_hdr_bytes_length; reflexivity).
+    rewrite (N.max_r (wm_fpos r) (wm_fpos r + 32)) by lia.
+    replace (wm_mk_raw (wm_fpos r + 32) (wm_fpos r + 32) (wm_fpos r) h1 (wm_last_pl r) ((wm_fpos r, h1) :: wm_disk r) (WmWrite (wm_fpos r) hb :: wm_rlog r) false)
+      with (wm_mk_raw (wm_fpos r + 32) (wm_fpos r + 32) (wm_fpos r + 32 - 32) h1 (wm_last_pl r) ((wm_fpos r, h1) :: wm_disk r) (WmWrite (wm_fpos r) hb :: wm_rlog r) false)
+      by (f_equal; lia).
+    rewrite (wm_raw_wr_payload_append (wm_fpos r + 32) h1 (wm_last_pl r) ((wm_fpos r, h1) :: wm_disk r) (WmWrite (wm_fpos r) hb :: wm_rlog r) p Htag1 Hpl1 Hlen0).
+    cbv zeta. rewrite (wm_footer_length (N.of_nat (length p)) (crc32c p)). fold ft.
+    assert (Hsz : fm_chunk_size (N.of_nat (length p)) = 32 + N.of_nat (length p) + (fm_pad_len (N.of_nat (length p)) + 4)).
+    { unfold fm_chunk_size, fm_disk_len. destruct (N.of_nat (length p) =? 0) eqn:E0; [apply N.eqb_eq in E0; congruence|].
+      unfold SIZEOF_chunk_header, RAW_CRC_SIZE. lia. }
+    rewrite Hsz.
+    set (a := wm_fpos r). set (n := N.of_nat (length p)). set (q := fm_pad_len n).
+    replace (N.max (N.max (a + 32) (a + 32 + n)) (a + 32 + n + (q + 4))) with (a + 32 + n + (q + 4)) by lia.
+    rewrite N.leb_refl.
+    unfold wm_mk_raw, wm_invalidate, wm_set_hdr, wm_set_offset.
+    cbv [wm_fpos wm_fend wm_offset wm_hdr wm_last_pl wm_disk wm_rlog wm_fault].
+    f_equal. f_equal; lia.
+  - subst hb ft. unfold fm_encode_chunk, fm_frame, wm_footer. destruct p; [congruence|]. reflexivity.
 Qed.
+
+Lemma wm_raw_wr_append_empty : forall r h,
+  wm_appending r -> fm_payload_length h = 0 -> fm_tag h <> JLS_TAG_INVALID ->
+  let h1 := wm_hdr_set_ppl h (wm_last_pl r) in
+  wm_raw_wr r h [] =
+  (wm_mk_raw (wm_fpos r + 32) (wm_fpos r + 32) (wm_fpos r + 32) (wm_hdr_set_tag h1 JLS_TAG_INVALID) 0
+             ((wm_fpos r, h1) :: wm_disk r) (WmWrite (wm_fpos r) (fm_encode_chunk h1 []) :: wm_rlog r) false, h1).
+Proof.
+  intros r h Ha Hpl Htag h1.
+  assert (Hpl1 : fm_payload_length h1 = 0) by (subst h1; cbv [fm_payload_length wm_hdr_set_ppl]; exact Hpl).
+  assert (Htag1 : (fm_tag h1 =? JLS_TAG_INVALID) = false) by (subst h1; cbv [fm_tag wm_hdr_set_ppl]; apply N.eqb_neq; exact Htag).
+  rewrite (wm_appending_inv r Ha) at 1. unfold wm_raw_wr.
+  rewrite wm_raw_wr_header_append. cbv beta iota zeta. fold h1.
+  rewrite wm_hdr_bytes_length, Hpl1.
+  rewrite (N.max_r (wm_fpos r) (wm_fpos r + 32)) by lia.
+  unfold wm_raw_wr_payload, wm_raw_rd_header, wm_hdr_valid, wm_mk_raw.
+  cbv [wm_hdr wm_fault]. rewrite Htag1. cbv [negb wm_fault N.eqb wm_fend wm_fpos].
+  rewrite N.leb_refl.
+  unfold wm_invalidate, wm_set_hdr, wm_set_offset, wm_set_last_pl.
+  cbv [wm_fpos wm_fend wm_offset wm_hdr wm_last_pl wm_disk wm_rlog wm_fault].
+  unfold fm_encode_chunk. cbn [fm_frame]. rewrite app_nil_r. reflexivity.
+Qed.
+
+Lemma wm_mk_raw_appending : forall a hdr lpl disk log, wm_appending (wm_mk_raw a a a hdr lpl disk log false).
+Proof. intros. repeat split. Qed.
+Lemma wm_mk_raw_fpos : forall a b c hdr lpl disk log f, wm_fpos (wm_mk_raw a b c hdr lpl disk log f) = a.
+Proof. reflexivity. Qed.
 
 Lemma wm_raw_wr_append_aligned : forall r h p,
   wm_appending r -> fm_payload_length h = N.of_nat (length p) -> fm_tag h <> JLS_TAG_INVALID ->
-  wm_fpos r mod 8 = 0 -> wm_fpos (fst (wm_raw_wr r h p)) mod 8 = 0.
+  wm_fpos r mod 8 = 0 -> wm_fpos (fst (wm_raw_wr r h p)) mod 8 = 0 /\ wm_appending (fst (wm_raw_wr r h p)).
 Proof.
   intros r h p Ha Hpl Htag Hal.
-  assert (Hsz : forall n, (wm_fpos r + fm_chunk_size n) mod 8 = 0).
-  { intro n. rewrite N.add_mod by discriminate. rewrite Hal, fm_chunk_size_mod8. reflexivity. }
   destruct p as [|b p'].
-  - destruct (wm_raw_wr_append_empty r h Ha Hpl Htag) as [_ [_ [Hp _]]]. rewrite Hp. apply Hsz.
+  - rewrite (wm_raw_wr_append_empty r h Ha Hpl Htag). cbv [fst]. rewrite wm_mk_raw_fpos.
+    split; [|apply wm_mk_raw_appending]. rewrite N.add_mod by discriminate. rewrite Hal. reflexivity.
   - assert (Hne : b :: p' <> []) by discriminate.
-    destruct (wm_raw_wr_append_nonempty r h (b :: p') Ha Hpl Hne Htag) as [_ [_ [_ [Hp _]]]]. rewrite Hp. apply Hsz.
+    destruct (wm_raw_wr_append_nonempty r h (b :: p') Ha Hpl Hne Htag) as [Hw _]. rewrite Hw.
+    cbv [fst]. rewrite wm_mk_raw_fpos.
+    split; [|apply wm_mk_raw_appending]. rewrite N.add_mod by discriminate. rewrite Hal, fm_chunk_size_mod8. reflexivity.
 Qed.
 
 (* ---- sanity by computation: wopen; wclose ---- *)
@@ -170,4 +220,35 @@ Proof. vm_compute. reflexivity. Qed.
 Example wm_open_close_file_length : wm_fend (wm_b_raw (wm_st_base (fst (wm_run_full wm_zero_summ1 wm_zero_summN [])))) = 832.
 Proof. vm_compute. reflexivity. Qed.
 Example wm_open_is_appending : wm_appending (wm_b_raw (wm_st_base wm_api_open)).
+Proof. vm_compute. repeat split. Qed.
+
+(* ---- wm_step (entries of one call) agrees with the accumulated log, on a program touching every op ---- *)
+Fixpoint wm_steps_logs (summ1 : N -> list N -> wm_sentry) (summN : bool -> list wm_sentry -> wm_sentry)
+         (st : wm_state) (p : list wop) : wm_state * list wm_entry :=
+  match p with
+  | [] => (st, [])
+  | o :: r => let '(st1, l) := wm_step summ1 summN st o in
+              let '(st2, ls) := wm_steps_logs summ1 summN st1 r in (st2, l ++ ls)
+  end.
+Definition wm_example_prog : list wop :=
+  [ WSrc {| so_id := 3; so_name := SBytes [97; 98]; so_vendor := SNull; so_model := SBytes []; so_version := SNull; so_serial := SNull |};
+    WSig {| sg_id := 5; sg_src := 3; sg_type := 0; sg_dtype := JLS_DATATYPE_U8; sg_rate := 1000; sg_spd := 32; sg_sdf := 32;
+            sg_eps := 10; sg_sumdf := 10; sg_adf := 10; sg_udf := 10; sg_name := SBytes [120]; sg_units := SNull |};
+    WSig {| sg_id := 5; sg_src := 3; sg_type := 0; sg_dtype := JLS_DATATYPE_U8; sg_rate := 1000; sg_spd := 32; sg_sdf := 32;
+            sg_eps := 10; sg_sumdf := 10; sg_adf := 10; sg_udf := 10; sg_name := SBytes [120]; sg_units := SNull |};
+    WFsr 5 100%Z (map N.of_nat (seq 0 70));
+    WOmit 5 1;
+    WFsr 5 175%Z (repeat 7 400);
+    WAnno 5 (({| an_ts := 3%Z; an_y := 0x3f800000; an_type := 1; an_group := 2; an_stype := 2; an_data := [104; 105; 0] |}));
+    WAnno 0 (({| an_ts := (-3)%Z; an_y := 0; an_type := 0; an_group := 0; an_stype := 1; an_data := [1; 2; 3; 4; 5] |}));
+    WUtc 5 100%Z 123456789%Z;
+    WUtc 9 100%Z 0%Z;
+    WUd {| ud_meta := 0xf123; ud_stype := 3; ud_data := [123; 125; 0] |};
+    WFlush ].
+Example wm_step_agrees_with_run :
+  let s1 := wm_zero_summ1 in let sN := wm_zero_summN in
+  let '(st, l) := wm_steps_logs s1 sN (wm_st_clear_log wm_api_open) wm_example_prog in
+  wm_run s1 sN wm_example_prog = wm_rev (wm_st_log wm_api_open) ++ l ++ wm_rev (wm_st_log (wm_api_close s1 sN st))
+  /\ snd (wm_run_full s1 sN wm_example_prog) = [0; 0; JLS_ERROR_ALREADY_EXISTS; 0; 0; 0; 0; 0; 0; JLS_ERROR_NOT_FOUND; 0; 0]
+  /\ wm_st_fault (fst (wm_run_full s1 sN wm_example_prog)) = false.
 Proof. vm_compute. repeat split. Qed.
